@@ -1,2 +1,9 @@
+import sys
+
+# Diagnostics quote the offending value, and values are arbitrary-precision integers
+# ('4 _ "ab"' has thousands of digits): Python >= 3.11 refuses to format those by default.
+if hasattr(sys, "set_int_max_str_digits"):
+    sys.set_int_max_str_digits(0)
+
 from .cli import main_cli
 from .version import __version__
